@@ -41,12 +41,21 @@ ORI = [
     (0.0, 0.0, 30 * DEG),
     (30 * DEG, 20 * DEG, 10 * DEG),
     (90 * DEG, 0.0, 0.0),
+    (180 * DEG, 0.0, 0.0),
+    (150 * DEG, -25 * DEG, 40 * DEG),
 ]
-ORI_NAMES = ["identity", "yaw45", "pitch30", "roll30", "ypr30-20-10", "yaw90"]
+ORI_NAMES = ["identity", "yaw45", "pitch30", "roll30", "ypr30-20-10", "yaw90", "yaw180", "ypr150--25-40"]
 KINDS = ["box", "cyl", "cone", "sph", "two", "L"]
+# shapes whose bounding-box centre is NOT in the solid (their precomputed interior point is far
+# from the local origin): U and ring are added to the two-body and L meshes
+KINDS_X = ["U", "ring"]
+ALL_KINDS = KINDS + KINDS_X
+NONCONVEX = ["two", "L", "U", "ring"]
 SIZES = {
     "S1": ((1.6, 1.2, 1.0), (1.0, 0.8, 0.6)),
     "S2": ((2.4, 2.0, 1.6), (0.4, 0.3, 0.25)),
+    "S3": ((2.4, 2.0, 1.6), (0.3, 0.25, 0.2)),
+    "S4": ((2.4, 2.0, 1.6), (0.8, 0.6, 0.4)),
 }
 POS_A = (3.0, -2.0, 1.5)
 _s3 = 1 / math.sqrt(3)
@@ -57,12 +66,26 @@ DIRS = {
     "d": (_s3, _s3, _s3),
     "q": tuple(np.array((-0.6, 0.3, 0.74)) / np.linalg.norm((-0.6, 0.3, 0.74))),
     "-x": (-1.0, 0.0, 0.0),
+    "-y": (0.0, -1.0, 0.0),
 }
 
 # unit-frame geometry of the two custom (non-primitive) shapes
 TWO_BOXES = [((-0.5, -0.5, -0.5), (-0.2, 0.5, 0.5)), ((0.2, -0.5, -0.5), (0.5, 0.5, 0.5))]
 L_RING = [(-0.5, -0.5), (0.5, -0.5), (0.5, 0.0), (0.0, 0.0), (0.0, 0.5), (-0.5, 0.5)]
 L_BOXES = [((-0.5, -0.5, -0.5), (0.5, 0.0, 0.5)), ((-0.5, -0.5, -0.5), (0.0, 0.5, 0.5))]
+
+# thin walls (0.15 of the extent): most of the bounding box is empty, so a mis-transformed
+# interior point almost always leaves the solid
+U_RING = [(-0.5, -0.5), (0.5, -0.5), (0.5, 0.5), (0.35, 0.5), (0.35, -0.35), (-0.35, -0.35), (-0.35, 0.5), (-0.5, 0.5)]
+U_BOXES = [((-0.5, -0.5, -0.5), (0.5, -0.35, 0.5)), ((-0.5, -0.5, -0.5), (-0.35, 0.5, 0.5)), ((0.35, -0.5, -0.5), (0.5, 0.5, 0.5))]
+RING_OUTER = (-0.5, -0.5, 0.5, 0.5)
+RING_INNER = (-0.35, -0.35, 0.35, 0.35)
+RING_BOXES = [
+    ((-0.5, -0.5, -0.5), (-0.35, 0.5, 0.5)),
+    ((0.35, -0.5, -0.5), (0.5, 0.5, 0.5)),
+    ((-0.5, -0.5, -0.5), (0.5, -0.35, 0.5)),
+    ((-0.5, 0.35, -0.5), (0.5, 0.5, 0.5)),
+]
 
 # anchor points (unit frame of A) where B's centre is put: inside a body / inside a cavity
 ANCHORS = {
@@ -72,6 +95,8 @@ ANCHORS = {
     "sph": [(0.0, 0.0, 0.0), (0.15, -0.15, 0.1)],
     "two": [(-0.35, 0.0, 0.0), (0.35, 0.1, -0.1), (0.0, 0.0, 0.0)],
     "L": [(0.25, -0.25, 0.0), (-0.25, 0.25, 0.0), (0.25, 0.25, 0.0)],
+    "U": [(0.0, -0.425, 0.0), (-0.425, 0.1, 0.1), (0.425, 0.1, -0.1), (0.0, 0.1, 0.0)],
+    "ring": [(-0.425, 0.0, 0.0), (0.425, 0.1, 0.1), (0.0, -0.425, 0.0), (0.0, 0.0, 0.0)],
 }
 
 NPSEED = 20240531
@@ -85,6 +110,10 @@ def unit_mesh(kind):
         return S.concat_meshes([S.box_mesh(lo, hi) for lo, hi in TWO_BOXES])
     if kind == "L":
         return S.prism_mesh(L_RING, -0.5, 0.5)
+    if kind == "U":
+        return S.prism_mesh(U_RING, -0.5, 0.5)
+    if kind == "ring":
+        return S.frame_mesh(RING_OUTER, RING_INNER, -0.5, 0.5)
     raise KeyError(kind)
 
 
@@ -117,12 +146,16 @@ def analytic_inside(kind, L, k=1.0):
         return S.in_box_union(L, TWO_BOXES, k)
     if kind == "L":
         return S.in_box_union(L, L_BOXES, k)
+    if kind == "U":
+        return S.in_box_union(L, U_BOXES, k)
+    if kind == "ring":
+        return S.in_box_union(L, RING_BOXES, k)
     raise KeyError(kind)
 
 
 # faceting of the inscribed triangulations: mesh >= analytic solid scaled by SHRINK about the
 # centre of each convex piece (measured in selftest)
-SHRINK = {"box": 1 - 1e-9, "two": 1 - 1e-9, "L": 1 - 1e-9, "cyl": 0.98, "cone": 0.96, "sph": 0.985}
+SHRINK = {"box": 1 - 1e-9, "two": 1 - 1e-9, "L": 1 - 1e-9, "U": 1 - 1e-9, "ring": 1 - 1e-9, "cyl": 0.98, "cone": 0.96, "sph": 0.985}
 
 
 def mk_obj(spec):
@@ -423,6 +456,9 @@ OO_ROUTES = {
     "unscaled-only5": ((g_unscaled, g_no3), (p_no1, p_nobounds, p_noconvex, p_no4)),
 }
 OO_QUICK = ["default", "no1", "no2Ain", "no1-no2A", "noconvex", "noconvex-no4", "only5", "unscaled", "unscaled-no1", "unscaled-no1-no2B", "unscaled-noconvex"]
+# routes whose verdict can come from the interior-point shortcuts (PASS 2A / PASS 4); used for
+# the placements that target those shortcuts in the quick tier
+IP_ROUTES = ["default", "no1", "no1-no2A", "noconvex", "unscaled", "unscaled-noconvex"]
 DIST_ROUTES = ["default", "unscaled"]
 
 
@@ -497,13 +533,14 @@ def new_stats():
         "margins_ge_005": 0,
         "samples": [],
         "dist_checked": 0,
+        "seam_checks": 0,
         "dist_maxerr": 0.0,
         "notes": set(),
     }
 
 
 def merge_stats(dst, src):
-    for k in ("evaluations", "cases", "judged", "skipped_touching", "margins_ge_005", "dist_checked"):
+    for k in ("evaluations", "cases", "judged", "skipped_touching", "margins_ge_005", "dist_checked", "seam_checks"):
         dst[k] += src[k]
     dst["deciders"].update(src["deciders"])
     dst["routes"].update(src["routes"])
@@ -512,6 +549,8 @@ def merge_stats(dst, src):
     dst["violations"].extend(src["violations"])
     dst["min_margin"] = min(dst["min_margin"], src["min_margin"])
     dst["dist_maxerr"] = max(dst["dist_maxerr"], src["dist_maxerr"])
+    for k, v in src.get("cpu", {}).items():
+        dst.setdefault("cpu", {})[k] = dst.setdefault("cpu", {}).get(k, 0.0) + v
     if len(dst["samples"]) < 6:
         dst["samples"].extend(src["samples"][:1])
     dst["notes"] |= src["notes"]
@@ -627,7 +666,116 @@ def run_oo_case(st, tier, specA, SA, specB, label, routes, dist_routes):
             )
 
 
-def oo_placements(specA, SA, kb, dimsB, oriB, dirs):
+def seam_problems(reg, sol, scaled, check_bodies=True):
+    """Every precomputed datum the passes rely on, against the same quantity computed by the
+    oracle from the posed mesh.  Only *soundness* is demanded (the interior point is strictly
+    inside, the in-ball stays inside, the circum-balls contain every vertex, ...)."""
+    out = []
+    ip = np.asarray(reg._interiorPoint, float).reshape(3)
+    state = int(S.points_in_mesh(ip[None, :], sol)[0])
+    if state < 0:
+        state = 1 if abs(S.winding_number(ip[None, :], sol)[0]) > 0.5 else 0
+    d = float(S.point_surface_dist(ip[None, :], sol)[0])
+    if state != 1 or d <= 1e-9:
+        out.append(("interiorPoint-not-inside", f"_interiorPoint {ip.tolist()} is {'outside' if state == 0 else 'on the surface of'} the posed mesh (distance to surface {d:.6f})"))
+    inr, circ = (float(x) for x in reg._interiorPointRadii)
+    if state == 1 and inr > d + 1e-7:
+        out.append(("inradius-ball-leaves-solid", f"inradius {inr} about _interiorPoint but the surface is at {d}"))
+    far = float(np.linalg.norm(sol.V - ip, axis=1).max())
+    if circ < far - 1e-7:
+        out.append(("circumradius-ball-misses-vertices", f"circumradius {circ} about _interiorPoint {ip.tolist()} but a vertex is at {far}"))
+    pos = np.asarray(reg.position, float).reshape(3)
+    far_c = float(np.linalg.norm(sol.V - pos, axis=1).max())
+    if float(reg._circumradius) < far_c - 1e-7:
+        out.append(("circumradius-about-position", f"_circumradius {float(reg._circumradius)} but a vertex is {far_c} from position"))
+    if check_bodies and int(reg._bodyCount) != len(sol.reps):
+        out.append(("bodyCount", f"_bodyCount {reg._bodyCount} but the posed mesh has {len(sol.reps)} bodies"))
+    conv = S.is_convex(sol)
+    if bool(reg.isConvex) and not conv:
+        out.append(("isConvex", "isConvex is True but the posed mesh is not convex"))
+    geom, trans = reg._fclData
+    Rf = np.asarray(trans.getRotation(), float).reshape(3, 3)
+    tf = np.asarray(trans.getTranslation(), float).reshape(3)
+    base = np.asarray(reg._scaledShape.mesh.vertices, float) if scaled else np.asarray(reg.mesh.vertices, float)
+    if (reg._scaledShape is not None) != scaled:
+        out.append(("scaledShape-presence", f"_scaledShape is {'missing' if scaled else 'present'} in the {'default' if scaled else 'unscaled'} route"))
+    elif base.shape != sol.V.shape or float(np.abs(base @ Rf.T + tf - sol.V).max()) > 1e-9:
+        out.append(("fclTransform", "FCL transform applied to the FCL geometry's vertices does not give the posed mesh"))
+    return out
+
+
+def seam_check(st, spec):
+    """Run `seam_problems` for an object in both precomputation modes."""
+    import time as _time
+
+    _t0 = _time.process_time()
+    try:
+        _seam_check(st, spec)
+    finally:
+        st["cpu_seam"] = st.get("cpu_seam", 0.0) + _time.process_time() - _t0
+
+
+def _seam_check(st, spec):
+    pair = spec[0]
+    for mode in ("scaled", "unscaled"):
+        p = Patches()
+        try:
+            if mode == "unscaled":
+                g_unscaled(p)
+            obj = mk_obj(spec)
+            reg = obj.occupiedSpace
+            probs = seam_problems(reg, solid_of_region(reg), mode == "scaled")
+        finally:
+            p.close()
+        st["seam_checks"] = st.get("seam_checks", 0) + 1
+        for tag, msg in probs:
+            st["violations"].append(
+                (
+                    f"precomputed:{tag}:{mode}:{pair}",
+                    f"precomputed geometry of occupiedSpace ({mode} route) disagrees with the posed mesh: {msg}\nobject={spec}",
+                    {"kind": "seam", "spec": spec, "mode": mode, "tag": tag},
+                )
+            )
+
+
+def ghost_points(specA):
+    """Where a wrongly transformed precomputed interior point of A would be (and where the
+    right one is): partner objects are centred there."""
+    ka, posA, dimsA, oriA = specA
+    a = mk_obj(specA)
+    reg = a.occupiedSpace
+    posA = np.asarray(posA, float)
+    dims = np.asarray(dimsA, float)
+    R = S.rotation_zxy(*oriA)
+    raws = []
+    if reg._scaledShape is not None:
+        raws.append(("scaled", np.asarray(reg._scaledShape._interiorPoint, float)))
+    raws.append(("unit", np.asarray(a.shape._interiorPoint, float) * dims))
+    cands = []
+    for nm, raw in raws:
+        cands += [
+            (f"ghost:{nm}:correct", posA + R @ raw),
+            (f"ghost:{nm}:norotation", posA + raw),
+            (f"ghost:{nm}:inverse-rotation", posA + R.T @ raw),
+            (f"ghost:{nm}:unscaled", posA + R @ (raw / dims)),
+            (f"ghost:{nm}:mirrored", posA - R @ raw),
+            (f"ghost:{nm}:scale-after-rotation", posA + dims * (R @ (raw / dims))),
+        ]
+    out = []
+    for lab, pt in cands:
+        if all(np.linalg.norm(pt - q) > 1e-6 for _, q in out):
+            out.append((lab, pt))
+    # ... and the vertex of A farthest from each such point: a partner centred on it overlaps A,
+    # but lies outside a circum-ball drawn about a misplaced interior point
+    V = np.asarray(reg.mesh.vertices, float)
+    for lab, pt in list(out):
+        v = V[int(np.argmax(np.linalg.norm(V - pt, axis=1)))]
+        if all(np.linalg.norm(v - q) > 1e-6 for _, q in out):
+            out.append((lab.replace("ghost:", "farthest-from:"), v))
+    return out
+
+
+def oo_placements(specA, SA, kb, dimsB, oriB, dirs, ghosts=False, hug=False):
     """Placement lattice for B relative to A (world positions for B's centre)."""
     ka, posA, dimsA, oriA = specA
     posA = np.asarray(posA, float)
@@ -664,17 +812,39 @@ def oo_placements(specA, SA, kb, dimsB, oriB, dirs):
     RAm = S.rotation_zxy(*oriA)
     for i, anc in enumerate(ANCHORS[ka]):
         out.append((f"anchor{i}", posA + RAm @ (np.asarray(dimsA, float) * np.asarray(anc, float))))
+    if hug:
+        # B nested in a body of A without surface contact, pushed to within 0.05 of A's skin in
+        # four directions (a mis-transformed interior point of B then leaves A on some side)
+        terms = [(SA, +1)]
+        for lab, a0 in list(out):
+            if not lab.startswith("anchor"):
+                continue
+            v0, m0, _ = S.contained_in_terms(SB0.translated(a0), terms, TOL)
+            if v0 is True and m0 > 0.06:
+                for dn in ("x", "-x", "y", "-y"):
+                    d = np.asarray(DIRS[dn], float)
+                    s = advance_terms(terms, SB0, a0, d, 0.05)
+                    if s is not None:
+                        out.append((f"{lab}+{dn}:nested-clear0.05", a0 + s * d))
+    if ghosts:
+        out += ghost_points(specA)
     return out, SB0
 
 
 def oo_group(item):
-    ka, kb, oa, ob, size, dirs, tier = item
+    ka, kb, oa, ob, size, dirs, tier = item[:7]
+    ghosts = len(item) > 7 and item[7] == "ghosts"
+    hug = len(item) > 7 and item[7] == "hug"
     st = new_stats()
     dimsA, dimsB = SIZES[size]
     specA = (ka, POS_A, dimsA, ORI[oa])
     a0 = mk_obj(specA)
+    if a0.occupiedSpace._scaledShape is None:
+        raise HarnessError("the default route does not use precomputed per-shape geometry (_scaledShape is None for a fixed-size object)")
     SA = solid_of(a0)
-    placements, SB0 = oo_placements(specA, SA, kb, dimsB, ORI[ob], dirs)
+    placements, SB0 = oo_placements(specA, SA, kb, dimsB, ORI[ob], dirs, ghosts, hug)
+    seam_check(st, specA)
+    seam_check(st, (kb, tuple(float(x) for x in placements[0][1]), dimsB, ORI[ob]))
     for spec, sol in ((specA, SA), ((kb, (0.0, 0.0, 0.0), dimsB, ORI[ob]), SB0)):
         err = pose_error(spec, sol)
         if err > 1e-9:
@@ -686,6 +856,8 @@ def oo_group(item):
                 )
             )
     routes = OO_QUICK if tier == "quick" else list(OO_ROUTES)
+    if tier == "quick" and (ghosts or hug):
+        routes = IP_ROUTES
     for label, pos in placements:
         specB = (kb, tuple(float(x) for x in pos), dimsB, ORI[ob])
         run_oo_case(st, tier, specA, SA, specB, label, routes, DIST_ROUTES)
@@ -1163,12 +1335,14 @@ def selftest():
     # unit shapes: parity vs winding number vs closed form, on a lattice
     ax = np.linspace(-0.62, 0.62, 9)
     P = np.stack(np.meshgrid(ax, ax, ax, indexing="ij"), -1).reshape(-1, 3) + np.array((0.0113, -0.0071, 0.0057))
-    for kind in KINDS:
+    for kind in ALL_KINDS:
         sh = make_shape(kind)
         sol = S.Solid(np.array(sh.mesh.vertices), np.array(sh.mesh.faces))
+        if S.is_convex(sol) != (kind in ("box", "cyl", "cone", "sph")):
+            raise HarnessError(f"{kind}: oracle convexity test wrong")
         if not analytic_inside(kind, sol.V, 1 + 1e-9).all():
             raise HarnessError(f"vertices of the {kind} mesh are not in the analytic {kind}")
-        vol_an = {"box": 1.0, "cyl": math.pi / 4, "cone": math.pi / 12, "sph": math.pi / 6, "two": 0.6, "L": 0.75}[kind]
+        vol_an = {"box": 1.0, "cyl": math.pi / 4, "cone": math.pi / 12, "sph": math.pi / 6, "two": 0.6, "L": 0.75, "U": 0.405, "ring": 0.51}[kind]
         if not (0.955 <= sol.volume() / vol_an <= 1 + 1e-9):
             raise HarnessError(f"{kind}: mesh volume {sol.volume()} vs analytic {vol_an}")
         par = S.points_in_mesh(P, sol)
@@ -1228,10 +1402,20 @@ def plan(tier):
                     oo.append((ka, kb, oa, ob, size, dirs, tier))
                 if kb == "two":  # small two-body B half swallowed by A, from both sides
                     oo.append((ka, kb, 0, 0, "S2", ("x", "-x"), tier))
+        # interior-point shortcuts: a small partner centred where the (rightly / wrongly
+        # transformed) precomputed interior point of a rotated non-convex A is
+        for ka in NONCONVEX:
+            for oa in (6, 7) if ka in KINDS_X else (7,):
+                oo.append((ka, "cyl", oa, 0, "S3", (), tier, "ghosts"))
+        # a small rotated non-convex B nested in / beside a rotated non-convex A (no surface contact)
+        for kb in ("L", "U", "ring"):
+            for ob in (6, 5) if kb in KINDS_X else (6,):
+                oo.append(("L", kb, 6, ob, "S4", (), tier, "hug"))
         for cname in ["box", "convexmesh", "Lmesh", "cavity", "footprint", "intersection", "difference"]:
             for kind in KINDS:
                 for oi, sz in ((0, "small"), (4, "small")):
                     co.append((cname, kind, oi, sz, tier))
+        co += [("Lmesh", "U", 7, "small", tier), ("difference", "ring", 6, "small", tier), ("footprint", "U", 6, "small", tier)]
     else:
         for ka in KINDS:
             for kb in KINDS:
@@ -1240,17 +1424,49 @@ def plan(tier):
                         for size in ("S1", "S2"):
                             dirs = ("x", "y", "z", "d") if size == "S1" else ("x", "q", "-x")
                             oo.append((ka, kb, oa, ob, size, dirs, tier))
+        xcombos = [(0, 6), (6, 7), (7, 4), (4, 1), (2, 7), (5, 6)]
+        for ka in ALL_KINDS:
+            for kb in ALL_KINDS:
+                if ka in KINDS_X or kb in KINDS_X:
+                    for oa, ob in xcombos:
+                        oo.append((ka, kb, oa, ob, "S1", ("x", "d"), tier))
+                        oo.append((ka, kb, oa, ob, "S2", ("x", "-x"), tier))
+        for ka in NONCONVEX:
+            for oa in range(len(ORI)):
+                for kb in ("cyl", "box"):
+                    oo.append((ka, kb, oa, (oa + 3) % len(ORI), "S3", (), tier, "ghosts"))
+        for ka in ("L", "box", "cyl"):
+            for kb in ("L", "U", "ring"):
+                for oa in (0, 6, 1):
+                    for ob in (6, 5, 1, 7):
+                        oo.append((ka, kb, oa, ob, "S4", (), tier, "hug"))
         for cname in CONTAINERS:
             for kind in KINDS:
                 for oi in range(6):
                     for sz in ("small", "medium"):
                         co.append((cname, kind, oi, sz, tier))
+            for kind in KINDS_X:
+                for oi in (4, 6, 7):
+                    for sz in ("small", "medium"):
+                        co.append((cname, kind, oi, sz, tier))
     return oo, co
 
 
+def _is_interior_point_group(tag, payload):
+    if tag == "oo":
+        return len(payload) > 7 or payload[0] in KINDS_X or payload[1] in KINDS_X
+    return payload[1] in KINDS_X
+
+
 def work(item):
+    import time as _time
+
     tag, payload = item
-    return oo_group(payload) if tag == "oo" else co_group(payload)
+    t0 = _time.process_time()
+    r = oo_group(payload) if tag == "oo" else co_group(payload)
+    part = "interior_point_groups" if _is_interior_point_group(tag, payload) else "base_lattice"
+    r["cpu"] = {part: _time.process_time() - t0, "seam_checks": r.pop("cpu_seam", 0.0)}
+    return r
 
 
 def run(ctx):
@@ -1289,6 +1505,8 @@ def run(ctx):
         min_abs_margin=tot["min_margin"],
         judged_with_margin_ge_0_05=tot["margins_ge_005"],
         distance_checks=tot["dist_checked"],
+        precomputed_geometry_seam_checks=tot["seam_checks"],
+        worker_cpu_s={k: round(v, 1) for k, v in tot.get("cpu", {}).items()},
         distance_max_abs_error_when_disjoint=tot["dist_maxerr"],
         groups={"object_object": len(oo), "object_region": len(co)},
         rule="object/object: all ordered pairs of {box,cyl,cone,spheroid,two-body mesh,L mesh} x orientation pairs x size sets x "
@@ -1312,6 +1530,8 @@ def run(ctx):
         "whose .bounds is infinite only when read from those two functions' own frames; PASS 3 via an fcl shim whose collide() says no and isConvex=False; PASS 4 via _bodyCount=2; containsObject PASS 2 via "
         "isConvex=False / an unreachable boundingBox; PASS 3/4 via making the candidate interior point unavailable.  When intersects PASS 3 is disabled PASS 4 must be skipped too (it presupposes that "
         "PASS 3 found no surface collision), so that route is decided by PASS 5 alone",
+        "precomputed per-shape geometry: every object of the lattice is built with fixed dimensions (Object._with), so obj.occupiedSpace._scaledShape is present in the default route (asserted) "
+        "and absent in the unscaled routes; for each A and B of every group the interior point, in-/circum-balls, _circumradius, body count, convexity flag and FCL transform are compared with the posed mesh (seam check)",
         "not judged here: Object.intersects(Region) (only object/object and Region.containsObject are in the lattice); MeshSurfaceRegion / PolygonalFootprintRegion branches of MeshVolumeRegion.intersects",
     ]
     ctx.notes += sorted(tot["notes"])
@@ -1359,6 +1579,13 @@ def replay(ctx, case):
         err = pose_error(spec, solid_of(mk_obj(spec)))
         if err > 1e-9:
             ctx.violation(f"occupiedSpace-pose:{spec[0]}", f"pose error {err} for {spec}", case)
+        return
+    if case["kind"] == "seam":
+        spec = _tup(case["spec"])
+        seam_check(st, spec)
+        for sig, desc, c in st["violations"]:
+            if c["mode"] == case["mode"] and c["tag"] == case["tag"]:
+                ctx.violation(sig, desc, case)
         return
     if case["kind"] == "oo":
         specA, specB = _tup(case["specA"]), _tup(case["specB"])
